@@ -1,0 +1,29 @@
+//go:build verif
+
+package tabular
+
+import "IG-Parser/core/tree"
+
+/*
+Verification hooks (build tag 'verif' only): exported aliases of unexported pure helpers, so that a harness can
+exercise them in isolation. No behaviour is added.
+*/
+
+func VerifPerformOutputSpecificAdjustments(value string, outputType string) string {
+	return performOutputSpecificAdjustments(value, outputType)
+}
+
+func VerifPrintTabularOutput(statementMap []map[string]string, originalStatement string, igScriptInput string, headerCols []string, headerColsNames []string, rowPrefix string, stmtIdPrefix string, rowSuffix string, separator string, printHeaders bool, printOriginalStatement string, printIgScript string) (string, tree.ParsingError) {
+	return printTabularOutput(statementMap, originalStatement, igScriptInput, headerCols, headerColsNames, rowPrefix, stmtIdPrefix, rowSuffix, separator, "", false, printHeaders, printOriginalStatement, printIgScript)
+}
+
+func VerifGenerateOutput(statementMap []map[string]string, originalStatement string, igScriptInput string, headerCols []string, headerColsNames []string, separator string, googleSheets bool, printHeaders bool, printOriginalStatement string, printIgScript string) (string, tree.ParsingError) {
+	if googleSheets {
+		return generateGoogleSheetsOutput(statementMap, originalStatement, igScriptInput, headerCols, headerColsNames, separator, "", false, printHeaders, printOriginalStatement, printIgScript)
+	}
+	return generateCSVOutput(statementMap, originalStatement, igScriptInput, headerCols, headerColsNames, separator, "", false, printHeaders, printOriginalStatement, printIgScript)
+}
+
+func VerifGenerateHeaderRow(componentFrequency map[string]int, separator string) (string, []string, []string, tree.ParsingError) {
+	return generateHeaderRow("", componentFrequency, separator)
+}
